@@ -1,6 +1,6 @@
 SPECIFICATION Spec
 CONSTANTS
-  Universe = "table"
+  Universe = "tableT"
   MaxLen = 5
 INVARIANT MachineOK
 CHECK_DEADLOCK FALSE
